@@ -2,6 +2,7 @@ import FimVerif.Proofs.Lemmas.C11Spec
 import FimVerif.Proofs.Lemmas.C11Pdp
 import FimVerif.Proofs.Lemmas.C11Log
 import FimVerif.Proofs.Lemmas.C11Validate
+import FimVerif.Proofs.Lemmas.C11RoundTrip
 /-!
 # C11 — authorization and accounting attributes cover every resource, in any order
 
@@ -398,6 +399,45 @@ theorem legacy_mirror_counterexample :
 /-- non-vacuity of the hypothesis of `sound` -/
 example : Key.RESOURCE_MIRROR_SITE ∈ nstypeLut.map (·.2) := by decide
 
+/-! ### the collectors leave the caller's slivers as they were (defect repaired by /repo 0131a6f) -/
+
+theorem dispatchAuthz_obj (ns : List NodeS) (ss : List SvcS) :
+    dispatchAuthz (svcStepObj []) ns ss = (collect ⟨ns, ss, [], []⟩, ss) := by
+  have h : ∀ (ss : List SvcS) (a : Attrs) (acc : List SvcS),
+      ss.foldl (fun (p : Attrs × List SvcS) s => (((svcStepObj []) p.1 s).1, p.2 ++ [((svcStepObj []) p.1 s).2])) (a, acc)
+        = (ss.foldl (svcStep []) a, acc ++ ss) := by
+    intro ss
+    induction ss with
+    | nil => intro a acc; simp
+    | cons s ss ih =>
+      intro a acc
+      rw [List.foldl_cons]
+      show ss.foldl _ ((svcStepObj [] a s).1, acc ++ [(svcStepObj [] a s).2]) = _
+      rw [ih]
+      simp [svcStepObj]
+  unfold dispatchAuthz
+  rw [h]
+  simp [collect, inPorts]
+
+/-- **Collecting does not change what is collected.** Authorizing, logging and authorizing again the *same* sliver
+objects through the sliver dispatch gives, each time, exactly what freshly built slivers give: the authorization
+attributes of the slice and its accounting tally (hence everything `AuthzClaims` says). -/
+theorem shared_slivers_unchanged (ns : List NodeS) (ss : List SvcS) :
+    sharedSession (svcStepObj []) ns ss
+      = (collect ⟨ns, ss, [], []⟩, logCollect ⟨ns, ss, [], []⟩, collect ⟨ns, ss, [], []⟩) := by
+  unfold sharedSession
+  simp only [dispatchAuthz_obj]
+
+/-- Before the repair the placeholder was written into the caller's sliver: an external service without a site
+(corpus/C11/09) was then logged, and authorized again, with the site `UNKNOWN-SITE`, which the slice does not have. -/
+theorem shared_slivers_legacy_counterexample :
+    let ss : List SvcS := [⟨"v4", "FABNetv4Ext", "", none, none⟩]
+    (sharedSession (svcStepObjLegacy []) [] ss).2.1.sites = ["UNKNOWN-SITE"] ∧
+    get (sharedSession (svcStepObjLegacy []) [] ss).2.2 .RESOURCE_SITE = [.s "UNKNOWN-SITE"] ∧
+    (sharedSession (svcStepObj []) [] ss).2.1.sites = [] ∧
+    get (sharedSession (svcStepObj []) [] ss).2.2 .RESOURCE_SITE = [] := by
+  refine ⟨?_, ?_, ?_, ?_⟩ <;> decide
+
 /-! ### the whole property, clause by clause -/
 
 /-- a mirrored port whose name merely *extends*, *shortens* or re-cases the name of a port of the slice is a foreign port:
@@ -638,20 +678,58 @@ example : (⟨"v4a", "FABNetv4Ext", "", none, none⟩ : SvcS).site = siteStr (no
 theorem validate_records_inferred_sites (c : Validate.Cfg) (g g' : G10) (h : validate10 c g = some g') :
     present10 c g' = stamp (present10 c g) := validate10_records_sites c g g' h
 
-/-- **The same with `validate()` as C10 models it** (`Validate.validate` on the regenerated constraint tables, wrapped as
-`validate10`): hypothesis `H_validate_records_sites` is discharged by C10's `site_recorded`; what remains assumed is the
-round trip (`H_roundtrip`, C01) and that validation succeeds (`H_valid`; C10's `validate_iff_spec` says exactly when). -/
-theorem authz_paths_agree_with_c10_validate (reimport : G10 → G10)
-    (H_roundtrip : ∀ g, present10 Validate.genCfg (reimport g) = present10 Validate.genCfg g)
-    (g gv : G10) (H_valid : validate10 Validate.genCfg g = some gv) :
-    let sl := seen (present10 Validate.genCfg gv)
-    AuthzClaims sl ∧ sl = recordSites (present10 Validate.genCfg g) ∧
-    (∀ g2, validate10 Validate.genCfg (reimport g) = some g2 →
-      collect (seen (present10 Validate.genCfg g2)) = collect sl ∧ logCollect (seen (present10 Validate.genCfg g2)) = logCollect sl) ∧
-    (∀ g3, validate10 Validate.genCfg (reimport gv) = some g3 →
-      collect (seen (present10 Validate.genCfg g3)) = collect sl ∧ logCollect (seen (present10 Validate.genCfg g3)) = logCollect sl) :=
+/-- **C01 tie**: on C01's model of the graph store, serialising a stored slice graph to GraphML and importing it again
+under its own id (what `ExperimentTopology(graph_string=asm.serialize_graph())` does inside the ASM path) succeeds and
+presents the same slivers, for every presentation function that does not read the store's internal node numbers
+(**H_present_ignores_node_ids**, the one thing C01's `roundtrip_import_direct` leaves open: all attributes and edges are
+unchanged, node `k` is renumbered). This is `H_roundtrip`. -/
+theorem roundtrip_hypothesis_from_c01 (present : GraphML.Graph Nat → RawSlice)
+    (H_present_ignores_node_ids : ∀ (G : GraphML.Graph Nat) (start : Nat), present (FimVerif.C01.directCopy G start) = present G)
+    (s : GraphML.Store) (hs : FimVerif.C01.StoreInv s) (g : GraphML.Val) (G0 : GraphML.Graph Nat) (hG : s.extract g = some G0)
+    (hk : FimVerif.C01.KeysNodup G0) (doc : GraphML.Doc Nat) (hser : GraphML.serialize s g .graphml = .ok (some doc)) :
+    (GraphML.importDirect s doc).1 = .ok g ∧
+    ∃ G1, (GraphML.importDirect s doc).2.extract g = some G1 ∧ present G1 = present G0 :=
+  roundtrip_presents_same present H_present_ignores_node_ids s hs g G0 hG hk doc hser
+
+/-- non-vacuity of `H_present_ignores_node_ids`: a presentation that reads node attributes (here: how many each node
+has), not node numbers -/
+example : ∀ (G : GraphML.Graph Nat) (start : Nat),
+    (fun (H : GraphML.Graph Nat) => (⟨[], [], H.nodes.map (fun p => toString p.2.length), []⟩ : RawSlice)) (FimVerif.C01.directCopy G start)
+      = (fun (H : GraphML.Graph Nat) => (⟨[], [], H.nodes.map (fun p => toString p.2.length), []⟩ : RawSlice)) G := by
+  intro G start
+  simp [FimVerif.C01.directCopy, List.map_map, Function.comp_def]
+
+/-- **The same with `validate()` as C10 models it** (`Validate.validate`, for every constraint table `c` - in particular
+the regenerated `Validate.genCfg` - wrapped as `validate10`): hypothesis `H_validate_records_sites` is discharged by C10's
+`site_recorded`; what remains assumed is the round trip (`H_roundtrip`; see `roundtrip_hypothesis_from_c01`) and that
+validation succeeds (`H_valid`; C10's `validate_iff_spec` says exactly when). -/
+theorem authz_paths_agree_with_c10_validate (c : Validate.Cfg) (reimport : G10 → G10)
+    (H_roundtrip : ∀ g, present10 c (reimport g) = present10 c g)
+    (g gv : G10) (H_valid : validate10 c g = some gv) :
+    let sl := seen (present10 c gv)
+    AuthzClaims sl ∧ sl = recordSites (present10 c g) ∧
+    (∀ g2, validate10 c (reimport g) = some g2 →
+      collect (seen (present10 c g2)) = collect sl ∧ logCollect (seen (present10 c g2)) = logCollect sl) ∧
+    (∀ g3, validate10 c (reimport gv) = some g3 →
+      collect (seen (present10 c g3)) = collect sl ∧ logCollect (seen (present10 c g3)) = logCollect sl) :=
   authz_complete_sound_order_independent
-    { present := present10 Validate.genCfg, reimport := reimport, validate := validate10 Validate.genCfg }
-    ⟨H_roundtrip, validate10_records_sites Validate.genCfg⟩ g gv H_valid
+    { present := present10 c, reimport := reimport, validate := validate10 c }
+    ⟨H_roundtrip, validate10_records_sites c⟩ g gv H_valid
+
+/-- non-vacuity of `H_valid` for C10's `validate` on the regenerated constraint tables: a FABNetv4Ext service with one
+port owned at RENC and no declared site validates, and the collectors are then presented with site RENC -/
+def exG10 : G10 :=
+  { topo := { exp := true, nodes := [],
+              svcs := [⟨"FABNetv4Ext", none, [], none, [.port "n0-p0" (some [⟨"SharedPort", some "RENC"⟩])], [], []⟩] },
+    nodes := [], extras := [⟨"v4", none, none⟩], facs := [], ifaces := [] }
+
+example : (validate10 Validate.genCfg exG10).map (fun g => (present10 Validate.genCfg g).svcs.map (·.svc.site)) = some ["RENC"] := by
+  decide
+
+/-- **The site of every listed service can be inferred**: on the regenerated constraint table (`Gen.Constraints`, C10's
+translator) the three service types whose site the request must name - PortMirror, FABNetv4Ext, FABNetv6Ext - all limit
+the number of sites, which is the condition under which `validate()` gathers the owner sites and records the single one
+(`inferSite`; an unlimited type would fall back to UNKNOWN-SITE - seeded change C11-r2-3). -/
+theorem listed_types_are_site_limited : ∀ tk ∈ nstypeLut, limitedIn Validate.genCfg tk.1 = true := by decide
 
 end FimVerif.C11
